@@ -52,6 +52,14 @@ CLAIMED = {
                      "SQLITE_STATIC binds outlive the step; buffer primitives clamp. Equality of round-tripped values is not decided.",
                 note=TB + "; SQLite as parser of the embedded SQL",
                 tech="writer/reader table extraction from macro expansions in the AST + agreement checks"),
+    "C09": dict(level="other", ref="5 C09",
+                text="Who-may-reach rule over the resolved program: every string reaching a key position (a `name` column of an embedded "
+                     "statement, or a uthash key) is normaliser output, a field whose stores are all normaliser output, or an "
+                     "already-normalised parameter whose call sites are checked recursively; cif_normalize runs NFD -> case fold -> "
+                     "NFC chained through its buffers, and the validating variants validate first. What ICU computes and the per-code-"
+                     "point accept/reject boundary are not decided.",
+                note=TB + "; SQLite as parser of the embedded SQL; frozen already-normalised parameter table (DESIGN.md A.3)",
+                tech="who-may-reach / must-pass-through over call graph and bind sites + call-order check"),
     "C11": dict(level="other", ref="5 C11",
                 text="Narrow structural claim: the dialect-selecting magic code agrees in all places where it is emitted or compared "
                      "(incl. the common 7-character prefix), and CIF_WRONG_ENCODING / the BOM CIF_DISALLOWED_CHAR / SET_V1 sit exactly "
